@@ -946,10 +946,19 @@ def replay_file(pm, path):
   with open(path) as f:
     d = json.load(f)
   case = pm.CASES[d['case']]
-  if case.contract_key is None:
-    rep = case.replay(d['cfg'], d.get('model'), d)
-  else:
+  g = dict(d, name=d.get('obligation', ''))
+  if case.contract_key is not None:
     rep = replay_contract_goal(pm, d['case'], d['cfg'], d.get('model'))
+  elif hasattr(case, 'replay_desc'):
+    desc = case.replay_desc(d['cfg'], d.get('model'), g)
+    if desc is None:
+      rep = {'failing': [], 'note': 'no native replay exists for this obligation'}
+    else:
+      rep = case.replay_eval(d['cfg'], d.get('model'), g, desc, run_native([desc])[0])
+  elif hasattr(case, 'replay'):
+    rep = case.replay(d['cfg'], d.get('model'), g)
+  else:
+    rep = {'failing': [], 'note': 'no native replay exists for this obligation (%s)' % d.get('solver_detail', '')}
   print(json.dumps({'obligation': d['obligation'], 'failing_on_real_code': rep.get('failing'),
                     'native': rep.get('native')}, indent=1, default=str)[:4000])
   if rep.get('failing'):
